@@ -469,3 +469,91 @@ Proof.
       change (d :: (ds ++ c :: rest'))%list with ((d :: ds) ++ c :: rest')%list.
       rewrite join_app by discriminate. reflexivity.
 Qed.
+
+(* ---------- the byte-level path.Clean against the component-level one ---------- *)
+(* all strings over [alpha] of length n / of length at most n *)
+Fixpoint strings_of_len (alpha : list ascii) (n : nat) : list string :=
+  match n with
+  | O => [""]
+  | S k => flat_map (fun s => map (fun a => String a s) alpha) (strings_of_len alpha k)
+  end.
+
+Fixpoint strings_upto (alpha : list ascii) (n : nat) : list string :=
+  match n with
+  | O => [""]
+  | S k => (strings_upto alpha k ++ strings_of_len alpha (S k))%list
+  end.
+
+Definition clean_alphabet : list ascii := [slash; "."%char; "a"%char].
+
+Lemma clean_bytes_agree_upto8 :
+  forallb (fun s => String.eqb (clean_bytes s) (path_clean s)) (strings_upto clean_alphabet 8) = true.
+Proof. vm_compute. reflexivity. Qed.
+
+(* partial: every string of at most 8 bytes over {/, ., a} (9841 strings, by computation); all
+   other strings are tied by the correspondence run, which compares both with Go's path.Clean *)
+Lemma clean_bytes_agree_small s :
+  In s (strings_upto clean_alphabet 8) -> clean_bytes s = path_clean s.
+Proof.
+  intros H. pose proof clean_bytes_agree_upto8 as HF. rewrite forallb_forall in HF.
+  apply String.eqb_eq. now apply HF.
+Qed.
+
+(* ---------- DownloadTo's file name is never empty ---------- *)
+Fixpoint last_char (s : string) : option ascii :=
+  match s with
+  | EmptyString => None
+  | String a EmptyString => Some a
+  | String _ t => last_char t
+  end.
+
+Lemma strip_trailing_last c s : strip_trailing c s = "" \/ exists a, last_char (strip_trailing c s) = Some a /\ a <> c.
+Proof.
+  induction s as [|x s IH]; simpl; [now left|].
+  destruct (strip_trailing c s) as [|y t] eqn:E.
+  - destruct (Ascii.eqb x c) eqn:Ex; [now left|]. right. exists x. split; [reflexivity|].
+    intro; subst. now rewrite Ascii.eqb_refl in Ex.
+  - right. destruct IH as [IH|(a & Ha & Hc)]; [discriminate|]. exists a. split; auto.
+Qed.
+
+Lemma last_split_nonempty c s a : last_char s = Some a -> a <> c -> forall d, last (split_on c s) d <> "".
+Proof.
+  revert a. induction s as [|x s IH]; intros a Hl Hc d; [discriminate|].
+  simpl in Hl. destruct s as [|y s'].
+  - inversion Hl; subst. simpl. destruct (Ascii.eqb a c) eqn:E; [apply Ascii.eqb_eq in E; congruence|]. discriminate.
+  - specialize (IH a Hl Hc).
+    change (split_on c (String x (String y s'))) with
+      (if Ascii.eqb x c then "" :: split_on c (String y s')
+       else match split_on c (String y s') with h :: r => String x h :: r | [] => [String x ""] end).
+    remember (split_on c (String y s')) as rest eqn:Er. destruct rest as [|h r].
+    { exfalso. eapply split_on_nonempty. symmetry. exact Er. }
+    destruct (Ascii.eqb x c).
+    + exact (IH d).
+    + destruct r as [|h2 r2]; [simpl; discriminate|exact (IH d)].
+Qed.
+
+Lemma path_base_nonempty s : path_base s <> "".
+Proof.
+  unfold path_base. destruct s as [|a s']; [discriminate|].
+  destruct (strip_trailing_last slash (String a s')) as [E|(x & Hx & Hc)].
+  - rewrite E. discriminate.
+  - destruct (strip_trailing slash (String a s')) as [|b t] eqn:E; [discriminate|].
+    eapply last_split_nonempty; eauto.
+Qed.
+
+(* the file name DownloadTo writes: one non-empty path element that is neither "." nor "..",
+   and joining it to a destination appends exactly that component *)
+Theorem download_name_element upath name d :
+  download_name upath = Some name -> d <> "" ->
+  name <> "" /\ name <> "." /\ name <> ".." /\ contains_char slash name = false /\
+  clean_comps (path_join d name) = (clean_comps d ++ [name])%list.
+Proof.
+  intros H Hd. destruct (download_confined upath name d H Hd) as (H1 & H2 & H3 & H4).
+  assert (name <> "") as Hne.
+  { unfold download_name in H. destruct (_ || _); [discriminate|]. inversion H. apply path_base_nonempty. }
+  repeat split; auto.
+  assert (path_join d name = path_clean (d ++ "/" ++ name)) as ->
+    by (unfold path_join; destruct d; [congruence|]; destruct name; [congruence|reflexivity]).
+  destruct (clean_of_clean (d ++ "/" ++ name)) as [_ ->]. rewrite H4.
+  apply String.eqb_neq in Hne. now rewrite Hne.
+Qed.
